@@ -1086,8 +1086,26 @@ pub(crate) fn m_colspan_huge() {
     let _ = crate::config::plain().string_from_read(html2, 20);
 }
 
+/// Text carries the annotations current where it occurs; preformatted text is marked first / continuation;
+/// whitespace between blocks is dropped (public API, rich decorator).
+pub(crate) fn m_inline_tags() {
+    let _which: u8 = kani::any();
+    let a = crate::config::plain().string_from_read(&b"<div><p>one</p> \n <p>two</p></div>"[..], 40).expect("renders");
+    let b = crate::config::plain().string_from_read(&b"<div><p>one</p><p>two</p></div>"[..], 40).expect("renders");
+    assert!(a == b, "whitespace between blocks changes the result: {:?} vs {:?}", a, b);
+    let toks = rich_tokens(b"<p>plain <em>emph <strong>both</strong></em> tail</p><pre>abcdefghijklmnopqrstuvwxyz <em>zz</em></pre>", 12, false);
+    let find = |w: &str| toks.iter().find(|(t, _)| t.contains(w)).map(|(_, a)| a.clone()).unwrap_or_default();
+    assert!(find("plain").is_empty(), "plain text is annotated: {:?}", find("plain"));
+    assert!(find("emph") == vec![RichAnnotation::Emphasis], "emphasis annotation wrong: {:?}", find("emph"));
+    assert!(find("both") == vec![RichAnnotation::Emphasis, RichAnnotation::Strong], "nested annotation wrong: {:?}", find("both"));
+    assert!(find("tail").is_empty(), "annotation leaked: {:?}", find("tail"));
+    assert!(find("abcdefghijkl") == vec![RichAnnotation::Preformat(false)], "first piece of a <pre> line: {:?}", find("abcdefghijkl"));
+    assert!(find("mnopqrstuvwx") == vec![RichAnnotation::Preformat(true)], "continuation of a <pre> line: {:?}", find("mnopqrstuvwx"));
+    assert!(find("zz") == vec![RichAnnotation::Emphasis, RichAnnotation::Preformat(true)], "emphasis inside a continued <pre> line: {:?}", find("zz"));
+}
+
 crate::verif_common::registry! {
-    m_colspan_huge, m_frag_in_word, m_ol_prefix_width, m_dom_reuse, m_columns, m_prefix_blank_lines, m_shallow_empty, m_link_footnotes, m_strike_affix, m_frag_nested, m_dom_children, m_cell_unwind, m_routes_width, m_insert_child, m_ol_numbering, m_prefix_width, m_into_cells, m_table_col_width, m_table_alloc,
+    m_inline_tags, m_colspan_huge, m_frag_in_word, m_ol_prefix_width, m_dom_reuse, m_columns, m_prefix_blank_lines, m_shallow_empty, m_link_footnotes, m_strike_affix, m_frag_nested, m_dom_children, m_cell_unwind, m_routes_width, m_insert_child, m_ol_numbering, m_prefix_width, m_into_cells, m_table_col_width, m_table_alloc,
     r1_cascade_pairs, r1_cascade_triples, r2_specificity_order, r2_specificity_add,
     r3_ol_prefix_total, r4_ol_prefix_is_max,
     r9_tree_map_reduce_order, r12_config_plumbing, r12_width_zero,
